@@ -42,4 +42,52 @@ def AllDelivered (r0 : Nat) (w : World) : Prop :=
 /-- the cluster's history before the operator starts: writes only -/
 def OnlyChanges (pre : List Act) : Prop := ∀ a ∈ pre, ∃ k kind vis, a = Act.change k kind vis
 
+/-! ### `revise_namespaces` itself: Terminating namespaces
+
+      for raw_event in all_events:                       # listed bodies (type None) and events alike
+          matched  = any(match_namespace(name, pattern) …)
+          deleted  = is_deleted(raw_event)                # type == 'DELETED', or deletionTimestamp AND status.conditions
+          blockers = get_blockers(raw_event)              # the conditions with status 'True'
+          if deleted and blockers:   (log only)           # Terminating, content / finalizers remain: NOTHING changes
+          elif deleted:              insights.namespaces.discard(namespace)
+          elif matched:              insights.namespaces.add(namespace)
+
+  Kubernetes never deletes a namespace at once: it is marked (deletionTimestamp), the namespace controller writes
+  its conditions (NamespaceContentRemaining / NamespaceFinalizersRemaining = True while objects — e.g. those
+  carrying the operator's own finalizers — are still there), and only when nothing remains the object goes.
+  `NsMark` is that reading of a namespace body; keys are the namespaces that match the patterns. -/
+
+inductive NsMark where
+  | live        -- no deletionTimestamp, or no status.conditions yet
+  | blocked     -- marked for deletion, some condition is 'True': content / finalizers remain
+  | finishing   -- marked for deletion, conditions present, none 'True'
+  deriving DecidableEq, Repr
+
+/-- one listed body or raw event handed to `revise_namespaces` -/
+structure NsEv where
+  gone : Bool        -- raw_event['type'] == 'DELETED'
+  mark : NsMark
+  key : Nat
+  deriving DecidableEq, Repr
+
+/-- `is_deleted` -/
+def NsEv.deleted (e : NsEv) : Bool := e.gone || e.mark != .live
+
+/-- `bool(get_blockers(raw_event))` -/
+def NsEv.blockers (e : NsEv) : Bool := e.mark == .blocked
+
+/-- one iteration of the loop of `revise_namespaces` (`insights.namespaces` as a duplicate-free list) -/
+def reviseNs (served : List Nat) (e : NsEv) : List Nat :=
+  if e.deleted && e.blockers then served
+  else if e.deleted then served.filter (fun k => k != e.key)
+  else if served.contains e.key then served else e.key :: served
+
+def reviseAll (served : List Nat) : List NsEv → List Nat
+  | [] => served
+  | e :: es => reviseAll (reviseNs served e) es
+
+/-- An event (or listed body) that says "this namespace exists": it is not a DELETED event, and the body is live
+    or Terminating with something remaining. -/
+def NsEv.exists_ (e : NsEv) : Bool := !e.gone && e.mark != .finishing
+
 end Kopf.C19
